@@ -3,6 +3,7 @@ NEXT Next
 INVARIANT Codec
 INVARIANT Stable
 INVARIANT Exact
+INVARIANT Fixed
 INVARIANT AvgLaw
 CHECK_DEADLOCK FALSE
 CONSTANTS
